@@ -666,6 +666,11 @@ func (in *Interp) vfsLookup(p Str, op string) (*vfile, string) {
 		return nil, ""
 	}
 	if in.RealFS && p.T == nil {
+		// corpus mode: what the harness has put into the virtual file system wins, the rest is read
+		// from the real one
+		if f, ok := in.VFS[path.Clean(p.S)]; ok {
+			return f, p.S
+		}
 		return in.realFile(p.S), p.S
 	}
 	in.pinPathShape(p)
